@@ -21,7 +21,9 @@ ChordOk(r) ==
   /\ Len(r.text) >= Len(pn) /\ SubSeq(r.text, 1, Len(pn)) = pn
   /\ r.convOk /\ ~r.hasBase
   /\ d.ok /\ d.iv.n = r.i /\ (Size(d.iv) - (NotePitch(note) - NotePitch(ScaleNotes(k)[1]))) % 12 = 0
-  /\ r.name \in ChordSymbols /\ ChordTones(r.name) = tones
+  \* (the name may be any name crd's dictionary knows the chord by; when it is one of the display symbols of C16's table it
+  \* is the right one -- the quality itself is decided by the sound, below)
+  /\ (r.name \in ChordSymbols => ChordTones(r.name) = tones)
   \* fed back through write: sounds only notes of the scale, and exactly this chord
   /\ r.writeOk
   /\ Mod12(Range(r.ons)) \subseteq scalePcs
